@@ -485,19 +485,20 @@ def build_ped_changes(rng, d, params):
     os.makedirs(d, exist_ok=True)
     used = set()
     names = [_rand_name(rng, used) for _ in range(3)]
-    sc = synth.make_scenario(rng, nchrom=1, nsamples=3, nvars=6, kinds=("snv",), het_fraction=1.0, sample_names=names)
+    sc = synth.make_scenario(rng, nchrom=1, nsamples=3, nvars=8, kinds=("snv",), het_fraction=1.0, sample_names=names)
     c = sc.chroms[0]
     ch, fa, mo = names
+    wrong = (2, 4, 6)
     for s in names:
-        sc.haps[s][c][2] = (0, 0)
-        sc.haps[s][c][4] = (1, 1)
+        for i in wrong:
+            sc.haps[s][c][i] = (0, 0) if i != 4 else (1, 1)
     sc.haps[ch][c], _ = synth.inherit(rng, sc.haps[fa][c], sc.haps[mo][c])
     ref = synth.write_fasta(sc, os.path.join(d, "ref.fa"))
-    vcf = synth.write_vcf(sc, os.path.join(d, "in.vcf"), gt_override={(s, c, i): "0/1" for s in names for i in (2, 4)})
+    vcf = synth.write_vcf(sc, os.path.join(d, "in.vcf"), gt_override={(s, c, i): "0/1" for s in names for i in wrong})
     ped = synth.write_ped(os.path.join(d, "family.ped"), [(ch, fa, mo)])
     reads = []
     for s in names:
-        reads += synth.simulate_reads(rng, sc, s, c, 14, len_range=(200, 400))
+        reads += synth.simulate_reads(rng, sc, s, c, 16, len_range=(200, 400))
     bam = synth.write_bam(sc, reads, os.path.join(d, "reads.bam"))
     common = ["--reference", ref, "-o", "{out}/out.vcf", "--ped", ped, "--distrust-genotypes", "--changed-genotype-list",
               "{out}/changed.tsv", "--recombination-list", "{out}/recomb.tsv"]
